@@ -31,6 +31,8 @@ type pluginRecord struct {
 	Name      string   `json:"name"`
 	Generate  []string `json:"generate"`
 	ProtoFile []string `json:"proto_file"`
+	// Messages: the top-level messages each proto_file still declares (the descriptors, not only the names, must arrive intact)
+	Messages map[string][]string `json:"messages"`
 }
 
 // PluginMain is the plugin side: it records the request and answers with one file per file to generate.
@@ -51,8 +53,12 @@ func PluginMain() {
 		params[k] = v
 	}
 	rec := pluginRecord{Name: params["name"], Generate: req.GetFileToGenerate()}
+	rec.Messages = map[string][]string{}
 	for _, fd := range req.GetProtoFile() {
 		rec.ProtoFile = append(rec.ProtoFile, fd.GetName())
+		for _, m := range fd.GetMessageType() {
+			rec.Messages[fd.GetName()] = append(rec.Messages[fd.GetName()], m.GetName())
+		}
 	}
 	if dir := params["log"]; dir != "" {
 		b, _ := json.Marshal(rec)
@@ -94,6 +100,15 @@ type cliInput struct {
 	Exe     string    `json:"exe"`
 	Cases   []reqCase `json:"cases"`
 	Corrupt bool      `json:"corrupt"`
+}
+
+func has(l []string, x string) bool {
+	for _, y := range l {
+		if y == x {
+			return true
+		}
+	}
+	return false
 }
 
 func listTree(root string) []string {
@@ -205,6 +220,13 @@ func runCLI(in []byte) (*reg.Result, error) {
 						continue
 					}
 					got = append(got, strings.Join(r.Generate, ",")+" | "+strings.Join(r.ProtoFile, ","))
+					for _, f := range []string{"xa", "xb", "yc", "zd"} {
+						if ms, ok := r.Messages[pathOf[f]]; ok || has(r.ProtoFile, pathOf[f]) {
+							if len(ms) != 2 || ms[0] != "M"+f || ms[1] != "N"+f {
+								res.Violate("cli/descriptor-content/"+sig, info, "the unfiltered plugin received %s declaring the messages %v instead of [M%s N%s]", pathOf[f], ms, f, f)
+							}
+						}
+					}
 					for _, g := range r.Generate {
 						count[g]++
 					}
